@@ -66,7 +66,7 @@ def ladder(rnd):
     cdc = "R{R=%r}" % (10 ** rnd.uniform(0, 3))
     for _ in range(rnd.randint(1, 3)):
         R = 10 ** rnd.uniform(1, 3)
-        tau = 10 ** rnd.uniform(-4, 0.5)
+        tau = 10 ** rnd.uniform(-4, -0.5)     # characteristic frequencies at least ~1.5 decades inside the window 1e5 .. 1e-2 Hz
         if rnd.random() < 0.5:
             cdc += "(R{R=%r}C{C=%r})" % (R, tau / R)
         else:
@@ -208,7 +208,7 @@ def run(ctx):
                 # inputs of the model, computed as the source computes them
                 x = np.array([t.num_RC for t in tests if (tests[0].test == "complex" or t.num_RC <= len(f))], dtype=float)
                 min_x, max_x = int(min(x)), int(max(x))
-                y = np.log([t.pseudo_chisqr for t in tests if t.num_RC <= max_x])
+                y = np.log10([t.pseudo_chisqr for t in tests if t.num_RC <= max_x])   # the source's `log` is numpy.log10
                 single = bool(min_x == 2 and (np.diff(x) == 1).all() and (y[:5] < -2).all())
                 tl, tm = rec.get("trans", (0, 0))
                 md = rec.get("md", {})
@@ -235,9 +235,9 @@ def run(ctx):
                     continue
                 ins = [t for t in tests if lo <= t.num_RC <= hi]
                 sr = ranks([float(scores.get(t.num_RC, 0.0)) for t in ins])
-                lr = ranks([float(np.log(t.pseudo_chisqr)) for t in ins])
+                lr = ranks([float(np.log10(t.pseudo_chisqr)) for t in ins])
                 cr = ranks([float(sc[t.num_RC]) for t in ins])
-                pick_lines.append(f"pick {lo} {hi} " + ",".join(f"{t.num_RC}:{sr[float(scores.get(t.num_RC, 0.0))]}:{lr[float(np.log(t.pseudo_chisqr))]}:{cr[float(sc[t.num_RC])]}" for t in ins))
+                pick_lines.append(f"pick {lo} {hi} " + ",".join(f"{t.num_RC}:{sr[float(scores.get(t.num_RC, 0.0))]}:{lr[float(np.log10(t.pseudo_chisqr))]}:{cr[float(sc[t.num_RC])]}" for t in ins))
                 pick_real.append(f"ok {st.num_RC}")
                 ctx.count("pick")
     finally:
